@@ -86,6 +86,13 @@ def gen(rng, flavour):
                                       cfg['bdur'] / 2, cfg['bdur'] + U, 3 * BT + cfg['bdur']])
             c['how'] = rng.choice(['cancel', 'timeout', 'waitfor'])
         calls.append(c)
+    if flavour == 'c11' and rng.random() < 0.15:
+        # a caller keeps the loop busy with synchronous work right before it calls (timers run late); only the clauses
+        # that do not depend on the loop being on time are judged for these programs
+        R = cfg['ret']
+        for c in rng.sample(calls, min(len(calls), rng.randint(1, 2))):
+            c['block'] = rng.choice([BT / 2, BT + cfg['bdur'], R + BT / 4 if R else 2 * BT, R / 2 if R else BT, 2 * R + 3 * BT])
+        cfg['blocked_loop'] = True
     # the batch function may fail *after* it has yielded every result (while closing its connection, say)
     cfg['raise_end'] = rng.choice([None, None, None, 'HarnessError', 'ConnectionError', 'TimeoutError']) \
         if flavour in ('c04', 'c10') else None
@@ -208,6 +215,8 @@ class BatcherHarness:
                         if c['t']:
                             await aio.sleep(c['t'])
                         me = aio.current_task()
+                        if c.get('block'):
+                            simrt.sim_sleep(c['block'])        # synchronous work on the loop thread
                         emit('call', cid, eff_key(c))
                         try:
                             if c['how'] == 'timeout':
@@ -569,6 +578,33 @@ def judge_c11(v: BatView, res: CaseResult, prog):
     bykey = collections.defaultdict(list)
     for cid, (i, c) in sorted(v.calls.items(), key=lambda kv: kv[1][0]):
         bykey[c[2]].append(cid)
+    if prog['cfg'].get('blocked_loop'):
+        # the loop was kept busy: judged in log order only - while a request is surely still pending (enqueued, nothing
+        # produced for it yet), another call with its key adds no work and gets the same outcome
+        st['programs_with_busy_loop'] += 1
+        for key, cids in bykey.items():
+            origs = [c for c in cids if c in v.where]
+            for cid in cids:
+                ix = v.calls[cid][0]
+                for o in origs:
+                    if o == cid or v.calls[o][0] > ix:
+                        continue
+                    b = v.where[o][1][1]
+                    done_at = [y[2] for y in v.yields.get((b, key), [])]
+                    for d in (v.bend, v.braise, v.braise_end):
+                        if b in d:
+                            done_at.append(d[b][0])
+                    done_at += [i for i, e in enumerate(v.log) if e[0] == 'omit' and e[1] == b]
+                    if done_at and ix < min(done_at):
+                        st['call_while_surely_pending'] += 1
+                        if cid in v.where:
+                            res.violate('C11:duplicate-work-while-pending', 'a call arriving while a request for its key was pending '
+                                        'was put to work again', cid=cid, pending=o, key=key)
+                        elif v.rets.get(cid) is not None and v.rets.get(o) is not None and \
+                                outcome_of(v.rets[cid][1]) != outcome_of(v.rets[o][1]):
+                            res.violate('C11:different-outcome-in-window', 'a call made while the request was pending did not receive '
+                                        'its outcome', cid=cid, key=key)
+        return
     for key, cids in bykey.items():
         origs = []          # (cid, t_enq, t_answered)
         for cid in cids:
